@@ -85,10 +85,17 @@ impl Client {
             match &data_map_level {
                 DataMapLevel::First(_) => break Ok(data),
                 DataMapLevel::Additional(_) => {
-                    data_map_level = rmp_serde::from_slice(&data).map_err(|err| {
-                        error!("Error deserializing data map: {err:?}");
+                    // `pack_data_map` self-encrypts the serialised *chunk* holding the previous level,
+                    // so the decrypted bytes are that chunk: decode it before reading the level it wraps.
+                    let wrapped_level: Chunk = rmp_serde::from_slice(&data).map_err(|err| {
+                        error!("Error deserializing data map chunk: {err:?}");
                         GetError::InvalidDataMap(err)
                     })?;
+                    data_map_level =
+                        rmp_serde::from_slice(wrapped_level.value()).map_err(|err| {
+                            error!("Error deserializing data map: {err:?}");
+                            GetError::InvalidDataMap(err)
+                        })?;
                     continue;
                 }
             };
